@@ -84,6 +84,17 @@ Proof.
   split; [vm_compute; reflexivity|]. intros H. vm_compute in H. discriminate H.
 Qed.
 
+(** empty_is_none: the empty text and the empty byte string are read as null; every other
+    node (0, 0.0, false, [] among them) is read exactly as without the option *)
+Lemma empty_is_none_only_empty_text c U fuel nillable k j :
+  fdv c U fuel nillable (DPrimE k) j
+  = fdv c U fuel nillable (DPrim k) (match j with JStr [] | JBytes [] => JNull | _ => j end).
+Proof.
+  unfold fdv, fdv_gen, fdv_with.
+  destruct empty_is_none_spec as [-> ->].
+  destruct j as [| | | |[|x s]|[|x b]| |]; reflexivity.
+Qed.
+
 Lemma source_tables :
   (forall z, mp_native_int z = in64 z)
   /\ (forall n m l, member_written n (Fin m) l = negb n || (0 <? m) || l)
@@ -95,6 +106,8 @@ Lemma source_tables :
   /\ null_member_is_none = true /\ body_lookup_both_key_forms = true /\ single_none_is_null = true
   /\ int_slot_float_is_int = true /\ ret_bool_by_identity = true /\ hier_counts_array_items = false
   /\ cycle_guard_per_branch = true
+  /\ ein_empty_str = true /\ ein_empty_bytes = true
+  /\ bytes_encoded_as_one = true /\ bytes_no_chunks_ok = true
   /\ handlers = expected_handlers
   /\ GMsgpack_key_utf8 = true /\ GJson_key_utf8 = false /\ GYaml_key_utf8 = false
   /\ GMsgpack_writes_bytes = true /\ GJson_base64 = true /\ GYaml_base64 = true.
@@ -105,6 +118,8 @@ Proof.
   split; [exact wrapper_arity_spec|]. split; [exact freq_spec|].
   destruct repairs_in_place as (A & B & C & _ & D & E & _ & F). split; [exact A|]. split; [exact B|]. split; [exact C|].
   split; [exact D|]. split; [exact E|]. split; [exact F|]. split; [exact cycle_guard_spec|].
+  split; [apply empty_is_none_spec|]. split; [apply empty_is_none_spec|].
+  split; [apply bytes_base64_spec|]. split; [apply bytes_base64_spec|].
   split; [exact handlers_as_modelled|].
   destruct protocol_facts as (j & y & m & _ & _ & mb & jb & yb & _).
   repeat split; assumption.
